@@ -43,24 +43,24 @@ type tagged struct {
 
 type Protocol struct {
 	Name, Pkg, On, Where string
-	Props     []string
-	SelfName  string
-	SelfType  string
-	Shared    []string
-	Ghost     []BoundVar
-	Local     []BoundVar
-	Inv       []*Clause
-	AssumeInv []*Clause
-	Rely      []tagged
-	Threads   []string
-	Single    map[string]bool
-	OnCl      []onClause
-	Posts     []tagged
-	Entry     []tagged // assumptions at thread entry
-	LoopInv   map[string]map[int][]*Clause
-	Readers   []string // functions allowed to read shared locations non-atomically? (none by default)
-	Init      []string // constructor functions (may allocate the object)
-	Counters  [][2]string // ghost counters: global = sum over threads of local
+	Props                []string
+	SelfName             string
+	SelfType             string
+	Shared               []string
+	Ghost                []BoundVar
+	Local                []BoundVar
+	Inv                  []*Clause
+	AssumeInv            []*Clause
+	Rely                 []tagged
+	Threads              []string
+	Single               map[string]bool
+	OnCl                 []onClause
+	Posts                []tagged
+	Entry                []tagged // assumptions at thread entry
+	LoopInv              map[string]map[int][]*Clause
+	Readers              []string    // functions allowed to read shared locations non-atomically? (none by default)
+	Init                 []string    // constructor functions (may allocate the object)
+	Counters             [][2]string // ghost counters: global = sum over threads of local
 }
 
 func parseIn(rest string) ([]string, string) {
